@@ -46,6 +46,12 @@ pub trait VF: RichField + Extendable<2> {
     fn factors(x: Self) -> Vec<Self> {
         vec![x]
     }
+    /// total degree of the (division-free) term in the listed symbols, every other symbol being a
+    /// constant; natively `None` (callers fall back to finite differences along a line)
+    fn degree_in(term: Self, vars: &[Self]) -> Option<usize> {
+        let _ = (term, vars);
+        None
+    }
     /// does `term` syntactically depend on symbol `sym`? (natively: true)
     fn mentions(term: Self, sym: Self) -> bool {
         let _ = (term, sym);
@@ -115,6 +121,14 @@ impl VF for SymF {
         }
         let _g = Restore(Some(crate::set_unknown(crate::Unknown::AssumeNe)));
         f()
+    }
+    fn degree_in(term: Self, vars: &[Self]) -> Option<usize> {
+        let ids: std::collections::HashSet<u32> = vars.iter().filter_map(|v| if let Op::N(i) = v.op() { Some(i) } else { None }).collect();
+        let f = crate::poly::NORM.with(|n| n.borrow_mut().of(term.op()));
+        if !f.den.is_empty() {
+            return None;
+        }
+        Some(f.num.t.keys().map(|m| m.iter().filter(|(a, _)| ids.contains(a)).map(|(_, e)| *e as usize).sum::<usize>()).max().unwrap_or(0))
     }
     fn factors(x: Self) -> Vec<Self> {
         crate::factors(x.op()).into_iter().map(SymF::from_op).collect()
@@ -509,5 +523,37 @@ impl Ctx {
                 }
             }
         }
+    }
+}
+
+/// Total degree of `f` in its `n` arguments (all other symbols constant), at most `cap`.
+/// Symbolically: read off the polynomial normal form on fresh symbols `<tag>0..`. Natively (witness
+/// and replay runs): restrict `f` to the line a + t b through two points given by the same symbols
+/// (model / pseudo-random values) and take the order of the first vanishing forward difference
+/// over t = 0..cap+1.
+pub fn degree_of<F: VF>(tag: &str, n: usize, cap: usize, f: impl Fn(&[F]) -> Vec<F>) -> usize {
+    let a: Vec<F> = (0..n).map(|i| F::var(&format!("{tag}{i}"))).collect();
+    if F::SYMBOLIC {
+        let out = f(&a);
+        return out.iter().map(|o| F::degree_in(*o, &a).expect("division-free term")).max().unwrap_or(0);
+    }
+    let b: Vec<F> = (0..n).map(|i| F::var(&format!("{tag}dir{i}"))).collect();
+    let mut rows: Vec<Vec<F>> = (0..=cap + 1)
+        .map(|t| {
+            let tt = F::from_canonical_u64(t as u64);
+            let x: Vec<F> = a.iter().zip(&b).map(|(p, q)| *p + tt * *q).collect();
+            f(&x)
+        })
+        .collect();
+    let mut d = 0;
+    loop {
+        if rows.iter().all(|r| r.iter().all(|v| *v == F::ZERO)) {
+            return d.max(1) - 1;
+        }
+        if rows.len() == 1 {
+            return cap + 1;
+        }
+        rows = rows.windows(2).map(|w| w[1].iter().zip(&w[0]).map(|(x, y)| *x - *y).collect()).collect();
+        d += 1;
     }
 }
